@@ -192,4 +192,15 @@ CHECKS["C16"] = {
   "technique": "Coq proof (frame theorem over write sequences, bisimulation by induction over execution order and input sequence, list-level matrix transpose identities at R) about an executable Gallina heap and legacy-ESN model + model-vs-code correspondence by vm_compute",
 }
 
+CHECKS["C12"] = {
+  "text": "Machine-checked theorems (coq/props/C12.v, closed under the global context): for every node kind and every history of call/run/train/partial_fit/fit, known dims never change; every exception raised before the core "
+          "(no learning rule, check_xy, initialisation) leaves dims/state/params untouched; wrong feature size (any array rank), non-numeric, non-array, wrong number of inputs, unsupported operations are rejected in the checking "
+          "phase; accepted input of T steps gives T rows of width output_dim; state is (1, output_dim) after any accepted operation; pre-fix behaviours and the two open findings are kept as refutation witnesses. Model = literal "
+          "check_vector / check_one_sequence / check_n_sequences / check_xy + op skeleton, tied each run by 446 (thorough 4126) seeded op histories over all 18 public node classes with a malformed-data stream (exception class + "
+          "phase, shapes, dims, bit-identical fingerprint compared inside Coq) and an independent implementation oracle.",
+  "note": "Irregular layouts accepted by the validation (3-D array to call/run; ragged lists on an uninitialised node - two open findings) are mirrored as 'Irregular' and judged by the oracle only; Models/teachers, "
+          "from_state/stateful/reset, buffers/_fitted, multi-target ScikitLearnNode (sklearn 1.9 lacks _get_tags) not covered; exception messages not modelled, only classes. Trusted: Coq kernel, coq/model/Shapes.v, tools/props/c12.py.",
+  "technique": "Coq proof (explicit state machine on abstract shape descriptors; case analysis + induction over op histories) + model-vs-code correspondence by vm_compute on nat/bool + implementation oracle",
+}
+
 NOT_YET = {}
